@@ -16,6 +16,10 @@ pub(crate) struct TapeRng { pub draws: u32, pub free: u32, pub accept: u32 }
 impl RngCore for TapeRng {
     fn next_u32(&mut self) -> u32 {
         self.draws += 1;
+        // progress obligation made explicit: once the stream delivers the accepting draw, a retry loop has to exit.
+        // (Without this, a loop that can no longer reach the accepting value only shows up as an unwinding failure,
+        // which the driver must treat as "bound too small / undecided".)
+        assert!(self.draws <= self.free + 4, "C09 progress: channel selection exits once the random stream delivers a draw that designates a usable channel");
         if self.draws <= self.free { tape::stub_u8() as u32 | ((tape::stub_u8() as u32) << 8) } else { self.accept }
     }
     fn next_u64(&mut self) -> u64 { self.next_u32() as u64 }
